@@ -667,14 +667,25 @@ def check_instance(fx, R, cq, cname):
             inst_name = '%s::%s:instance(%s)%s' % (cname, name, tag, ':stored-inverse' if what.startswith('inverseJtJ_') else '')
             if f is None:
                 continue
+            dens = [] if weighted and data <= 3 else None
             try:
-                sts = lsmodel.run(fx, f, inst)
+                sts = lsmodel.run(fx, f, inst, denominators=dens)
             except sym.Unsupported as u:
                 R.undecided('L7', inst_name, 'not interpretable on the instance: %s' % u)
                 continue
             except Exception as ex:      # singular symbolic inverse etc.
                 R.undecided('L7', inst_name, 'instance evaluation failed: %s: %s' % (type(ex).__name__, str(ex)[:120]))
                 continue
+            if dens:
+                # a weight may be exactly zero (robust weight functions reject outliers with w = 0; the statement is about sum (w_i r_i)^2): nothing may be divided by a weight alone
+                byw = [(d_, l_) for (d_, l_) in dens if d_.free_symbols and d_.free_symbols <= wsyms]
+                zero = [(d_, l_) for (d_, l_) in byw if d_.subs({y_: 0 for y_ in d_.free_symbols}) == 0]
+                if zero:
+                    R.violated('L7', '%s::%s:division-by-weight' % (cname, name), '%s() divides by %s: a weight that is exactly 0 (an outlier rejected by a robust weight function) turns the quotient into 0/0, '
+                               'and the NaN is stored in the solver\'s own buffers - this solve or the next one on the same object returns NaN instead of the minimiser of sum (w_i r_i)^2' % (name, zero[0][0]),
+                               fx.rel(zero[0][1]) if zero[0][1] else fx.rel(f['loc']), 'E-ALG')
+                else:
+                    R.holds('L7', '%s::%s:division-by-weight(%s)' % (cname, name, tag), 'no quantity is divided by a weight alone (%d divisions met)' % len(dens), fx.rel(f['loc']), 'E-ALG')
             all_ok = True
             for st in sts:
                 desc = ' && '.join(('' if c[2] else '!') + '(' + c[0] + ')' for c in st.cond)
